@@ -94,6 +94,9 @@ std::vector<NiNode*> NifFile::GetNodes() const {
 }
 
 void NifFile::CopyFrom(const NifFile& other) {
+	if (this == &other)
+		return;
+
 	if (isValid)
 		Clear();
 
